@@ -262,8 +262,13 @@ theorem isPerpendicular_smul (nrm : V3) (hn : nrm.dot nrm = 1) {t : Rat} (ht : t
   have h2 : (V3.smul t nrm).dot (V3.smul t nrm) = t * t := by
     rw [smul_dot_smul, hn]; ring
   have ht2 : 0 < t * t := mul_self_pos.mpr ht
-  simp only [isPerpendicular, h1, h2, perpTol, Bool.and_eq_true, decide_eq_true_eq]
-  refine ⟨⟨ht, ?_⟩, ?_⟩ <;> nlinarith
+  -- the translated tolerance lies strictly between 0 and 1 (whatever its current value, this is re-checked)
+  have hp0 : 0 < perpTol := by decide +kernel
+  have hp1 : perpTol < 1 := by decide +kernel
+  have e1 : (1 - perpTol) * (1 - perpTol) < 1 := by nlinarith
+  have e2 : 1 < (1 + perpTol) * (1 + perpTol) := by nlinarith
+  simp only [isPerpendicular, h1, h2, Bool.and_eq_true, decide_eq_true_eq]
+  exact ⟨⟨ht, mul_lt_of_lt_one_left ht2 e1⟩, lt_mul_of_one_lt_left ht2 e2⟩
 
 theorem map_dot_planePos (o nrm : V3) (s : Rat) (hn : nrm.dot nrm = 1) (js : List Nat) :
     (js.map (planePos o nrm s)).map nrm.dot = js.map (gdist (nrm.dot o) s) := by
